@@ -859,6 +859,15 @@ pub(crate) fn idx_topic_key_from_frame(frame: &Frame) -> Result<Vec<u8>, crate::
     }
     let mut v = idx_topic_key_prefix(frame.context_id, &frame.topic);
     v.extend(frame.id.as_bytes());
+    // The storage engine panics on keys longer than 65535 bytes
+    if v.len() > u16::MAX as usize {
+        return Err(format!(
+            "Topic too long: {} bytes, the limit is {}",
+            frame.topic.len(),
+            u16::MAX as usize - (v.len() - frame.topic.len())
+        )
+        .into());
+    }
     Ok(v)
 }
 
